@@ -427,6 +427,53 @@ def rule_text_total(ctx) -> None:
     ctx.holds("C13.TOTAL", f"{pv.qual}/text-ops-scanned", pv.loc(), f"{n_ops} value-partial text operation(s) found in {n_fn} function(s) reached by the untrusted text; each is under a catch-all", nontrivial=False)
 
 
+def rule_bundle_supplies_cfg(ctx) -> None:
+    """"intent follows the documented similarity thresholds ... for all thresholds": the planner is a pure function of its
+    bundle, so every configuration key it reads from bundle['cfg'][<section>] must be put there by the bundle builder
+    (cfg_snapshot) - a key the builder does not copy is silently replaced by the planner's built-in default, whatever the
+    configuration says."""
+    bq = "clematis.engine.stages.t3.bundle:cfg_snapshot"
+    b = ctx.func(bq)
+    supplied: Dict[str, Set[str]] = {}
+    for r in [x for x in walk_no_defs(b.node) if isinstance(x, ast.Return) and isinstance(x.value, ast.Dict)]:
+        for k, v in zip(r.value.keys, r.value.values):
+            if k is not None and const_str(k) and isinstance(v, ast.Dict):
+                supplied.setdefault(const_str(k), set()).update(const_str(kk) for kk in v.keys if kk is not None and const_str(kk))
+    if not supplied:
+        raise AnalysisError("anchor-vanished: cfg_snapshot no longer returns a literal of sections")
+    n_reads = 0
+    for mn in ("clematis.engine.stages.t3.policy", "clematis.engine.stages.t3.legacy", "clematis.engine.stages.t3.dialogue", "clematis.engine.stages.t3.core"):
+        if mn not in ctx.prog.modules:
+            continue
+        for fn in ctx.prog.module(mn).funcs.values():
+            if not any("bundle" in p for p in fn.params):
+                continue
+            rd = ctx.rd(fn)
+            # locals bound to bundle['cfg'][section]
+            secs: Dict[str, str] = {}
+            for d in rd.all_defs:
+                if d.value is None:
+                    continue
+                consts = [const_str(y) for y in ast.walk(d.value) if isinstance(y, ast.Constant) and isinstance(y.value, str)]
+                if "cfg" in consts and any(isinstance(y, ast.Name) and "bundle" in y.id for y in ast.walk(d.value)):
+                    sec = next((c for c in consts if c in supplied), None)
+                    if sec:
+                        secs[d.name] = sec
+            for x in walk_no_defs(fn.node):
+                key = None
+                if isinstance(x, ast.Call) and call_tail(x) == "get" and isinstance(x.func.value, ast.Name) and x.func.value.id in secs and x.args and const_str(x.args[0]):
+                    key = (secs[x.func.value.id], const_str(x.args[0]))
+                elif isinstance(x, ast.Subscript) and isinstance(x.value, ast.Name) and x.value.id in secs and const_str(x.slice):
+                    key = (secs[x.value.id], const_str(x.slice))
+                if key is None:
+                    continue
+                n_reads += 1
+                ctx.check(key[1] in supplied[key[0]], "C13.PURE", f"{fn.qual}/bundle-supplies:{key[0]}.{key[1]}", fn.loc(x), f"cfg_snapshot copies {key[0]}.{key[1]} into the bundle",
+                          f"`{src(x)[:50]}` reads {key[0]}.{key[1]} from the bundle, but cfg_snapshot copies only {sorted(supplied[key[0]])} of that section: the configured value never reaches the planner, "
+                          "which falls back to its built-in default - intent and retrieval do not follow the configured thresholds")
+    ctx.floor("C13.PURE", "configuration keys the planner reads from the bundle", n_reads, 1)
+
+
 def rule_token_budget_identity(ctx) -> None:
     """the Speak op's own token budget is told from 'not set' by identity: `if op and getattr(op, "max_tokens", None):` sends a
     budget of 0 to the fallback (the bundle's caps.tokens) and an utterance is emitted against a zero budget"""
@@ -517,6 +564,7 @@ def run(ctx) -> None:
     rule_once(ctx)
     rule_tok(ctx)
     rule_pure(ctx)
+    rule_bundle_supplies_cfg(ctx)
     rule_total(ctx)
     rule_text_total(ctx)
     rule_token_budget_identity(ctx)
